@@ -42,6 +42,8 @@ func main() {
 	explain := flag.String("explain", "", "print a violations file in readable form")
 	effects := flag.String("effects", "", "dump calls of a function with canonical args and guard sets (authoring aid); fn[@calleespec]")
 	list := flag.Bool("v", false, "print every obligation")
+	ssadump := flag.String("ssa", "", "authoring aid: print the normalised SSA of a function")
+	inl := flag.Bool("inlined", false, "authoring aid: list the helper call sites absorbed by the normalising pass")
 	sweep := flag.String("sweep", "", "authoring aid: list module-wide call sites of a callee spec whose verdict is discarded")
 	overlay := flag.String("overlay", "", "directory whose files replace the files of the same relative path in -repo (in memory; used by the self-test)")
 	flag.Parse()
@@ -76,6 +78,8 @@ func main() {
 			return nil
 		})
 	}
+	load.KnownName = rules.KnownName
+	load.NonNil = q.DefinitelyNonNilErr
 	p, err := load.Load(*repo, ov)
 	if err != nil {
 		fmt.Printf("load failed: %v\n", err)
@@ -83,6 +87,26 @@ func main() {
 			fail(*verif, *prop, *tier, t0, "load failed: "+err.Error())
 		}
 		os.Exit(1)
+	}
+	if *ssadump != "" {
+		if fn := p.Funcs[*ssadump]; fn != nil {
+			fn.WriteTo(os.Stdout)
+		} else {
+			fmt.Println("no such function")
+		}
+		return
+	}
+	if *inl {
+		for _, s := range p.Inlined {
+			fmt.Println("inlined:", s)
+		}
+		for _, s := range p.Absorbed {
+			fmt.Println("absorbed:", s)
+		}
+		for _, e := range p.Errors {
+			fmt.Println("error:", e)
+		}
+		return
 	}
 	if *effects != "" {
 		name, spec := *effects, ""
